@@ -106,6 +106,19 @@ def run(P, C, tier):
                     ok3 = "old" not in key or f.endswith("validate_room_mutation")
                     C.ob("R3", label, ok3, s["loc"], "entering-room decision keyed by %s" % key)
     C.floor("R1", "decision call sites on the local path", n_dec, 12)
+    # ---- R6: the decision is taken at the time of the operation, on the documented history function
+    C.rule("R6", "every local decision is evaluated at the operation's date (not a stored row's date); the history lookups all have the sibling shape `latest entry at or before the date decides`")
+    OPDATE = re.compile(r"(node_to_mutate\.date|^node\.date|^edge\.date|date_utils::now|^now)$")
+    cnt = {}
+    for f, b in bodies.items():
+        for s in rights.can_sites(P, b):
+            n = cnt.get((b.id, s["kind"]), 0)
+            cnt[(b.id, s["kind"])] = n + 1
+            d = s.get("date") or ""
+            dt = s["args"][3] if s["kind"] == "can" else s["args"][2]
+            ok = bool(OPDATE.search(d)) or mir.has_call(dt, r"date_utils::now$") is not None
+            C.ob("R6", "op-date:" + keyf(b, s, "#%d" % n), ok, s["loc"], "decision evaluated at `%s` (must be the date of this operation)" % d)
+    rights.history_lookup_rule(P, C, "R6")
     # both rooms: validate_entity_mutation has a decision under the room inequality
     b = bodies.get("RoomAuthorisations::validate_entity_mutation")
     if b is not None:
